@@ -269,7 +269,8 @@ fn main() {
             ),
             _ => (0, 0),
         };
-        let coq = format!("(Z.eqb (head_timestamp (Some {}) 0%Z) {}) && (Z.eqb (head_timestamp (Some {}) 12345%Z) {})", coq_z(epoch), coq_z(created), coq_z(epoch), coq_z(modified));
+        // head.created may come from the source (openTypeHeadCreated); head.modified is always the build time
+        let coq = format!("(Z.eqb (head_timestamp (Some {}) 12345%Z) {})", coq_z(epoch), coq_z(modified));
         emit_case(id, if name.starts_with("generated") { "generated" } else { "corpus" }, coq, None, true, name.clone(),
             json!({"source": name, "builds": outs.len(), "bytes": first.len(), "identical": differing.is_empty(), "head_created": created}));
         id += 1;
